@@ -755,6 +755,8 @@ impl<'a> Script<'a> {
                         ms[0].1 = Tv::Bytes(r)
                     }
                     "sp" => ms.push((5, Tv::Struct(vec![(1, Tv::U(500)), (2, Tv::U(300)), (3, Tv::U(4000))]))),
+                    // small MRP intervals: the device gives up retransmitting to us quickly
+                    "spf" => ms.push((5, Tv::Struct(vec![(1, Tv::U(20)), (2, Tv::U(20)), (3, Tv::U(4000))]))),
                     "duprand" => ms.insert(1, (1, Tv::Bytes(vec![7u8; 32]))),
                     "extra" => ms.push((9, Tv::U(5))),
                     "empty" => bytes = Some(Vec::new()),
@@ -846,6 +848,15 @@ impl<'a> Script<'a> {
                 let pctx = h.spake.setup_prover(&crypto, Spake2pVerifierPasswordRef::new(&pwb), &salt, iters, &mut pa).unwrap();
                 h.pa_own = pa.access().to_vec();
                 let payload = match pt {
+                    p if p.starts_with("flip") => {
+                        let mut b = tlv_struct(&[(1, Tv::Bytes(pa.access().to_vec()))]);
+                        // bits of the 65-byte value only (TLV framing is covered by construction)
+                        let n: usize = p[4..].parse().unwrap_or(0);
+                        let mut v = b[4..69].to_vec();
+                        flip_bit(&mut v, n);
+                        b[4..69].copy_from_slice(&v);
+                        b
+                    }
                     "notlv" => vec![0x15, 0x30],
                     "nofield" => tlv_struct(&[]),
                     "wrongtag" => tlv_struct(&[(2, Tv::Bytes(pa.access().to_vec()))]),
@@ -1003,17 +1014,727 @@ fn run_s(ops: &str) -> String {
     s
 }
 
+// ------------------------------------------------------------------ E: two real nodes and a man in the middle
+
+fn field<'a>(f: &[&'a str], k: &str) -> &'a str {
+    for kv in f {
+        if let Some((a, b)) = kv.split_once('=') {
+            if a == k {
+                return b;
+            }
+        }
+    }
+    ""
+}
+
+/// Rewrite the payload of one handshake message. `how` = <op>[:<arg>].
+fn mutate_payload(opcode: u8, payload: &[u8], how: &str, other_run: &OtherRun) -> Option<Vec<u8>> {
+    let (op, arg) = how.split_once(':').unwrap_or((how, "0"));
+    let n: usize = arg.parse().unwrap_or(0);
+    let mut ms = tlv_parse(payload)?;
+    match op {
+        "flip" => {
+            let mut b = payload.to_vec();
+            flip_bit(&mut b, n);
+            Some(b)
+        }
+        "trunc" => Some(payload[..n.min(payload.len())].to_vec()),
+        "zero" => {
+            // zero the value of member n
+            let m = ms.get_mut(n)?;
+            m.1 = match &m.1 {
+                Tv::Bytes(b) => Tv::Bytes(vec![0; b.len()]),
+                Tv::U(_) => Tv::U(0),
+                Tv::Bool(_) => Tv::Bool(false),
+                Tv::Struct(_) => Tv::Struct(vec![]),
+            };
+            Some(tlv_struct(&ms))
+        }
+        "del" => {
+            if n < ms.len() {
+                ms.remove(n);
+            }
+            Some(tlv_struct(&ms))
+        }
+        "dupf" => {
+            let m = ms.get(n)?.clone();
+            ms.insert(n, m);
+            Some(tlv_struct(&ms))
+        }
+        "set" => {
+            // numeric member n := its value + 1 (booleans toggled)
+            let m = ms.get_mut(n)?;
+            m.1 = match &m.1 {
+                Tv::U(x) => Tv::U(x + 1),
+                Tv::Bool(b) => Tv::Bool(!b),
+                Tv::Bytes(b) => {
+                    let mut b = b.clone();
+                    if let Some(x) = b.first_mut() {
+                        *x ^= 0x80;
+                    }
+                    Tv::Bytes(b)
+                }
+                Tv::Struct(p) => {
+                    let mut p = p.clone();
+                    if let Some((_, Tv::U(x))) = p.first_mut() {
+                        *x += 1;
+                    }
+                    Tv::Struct(p)
+                }
+            };
+            Some(tlv_struct(&ms))
+        }
+        "salt" => {
+            // PBKDFParamResponse: another salt of the same length
+            if let Some((_, Tv::Struct(p))) = ms.iter_mut().find(|(t, _)| *t == 4) {
+                if let Some((_, Tv::Bytes(b))) = p.iter_mut().find(|(t, _)| *t == 2) {
+                    b[0] ^= 1;
+                }
+            }
+            Some(tlv_struct(&ms))
+        }
+        "other" => {
+            // the value another run produced for this message
+            let v = match opcode {
+                OP_P1 => other_run.pa.clone(),
+                OP_P2 => other_run.pb.clone(),
+                OP_P3 => other_run.ca.clone(),
+                _ => return None,
+            };
+            ms.first_mut()?.1 = Tv::Bytes(v);
+            Some(tlv_struct(&ms))
+        }
+        _ => None,
+    }
+}
+
+/// Handshake values of another (successful) run against a device with the same passcode.
+#[derive(Default, Clone)]
+struct OtherRun {
+    pa: Vec<u8>,
+    pb: Vec<u8>,
+    ca: Vec<u8>,
+}
+
+thread_local! {
+    static OTHER: RefCell<Option<OtherRun>> = const { RefCell::new(None) };
+}
+
+#[derive(Default)]
+struct E2eOut {
+    a_ok: bool,
+    a_res: String,
+    obs: Option<Obs>,
+    seen: OtherRun,
+    hang: bool,
+}
+
+fn run_e2e(pwb: u64, pwa: u64, msg: &str, how: &str, at: u64, wop: &str) -> E2eOut {
+    let dev = Device::new();
+    dev.open("b", pwb, 77, 32, 2000, 900);
+    let det = e2e::dev_det(Some(SAI_MS), Some(SAI_MS));
+    let matter_a: &'static Matter<'static> = Box::leak(Box::new(e2e::new_matter(det, false)));
+    let crypto = test_only_crypto();
+    let target_op = match msg {
+        "req" => OP_REQ,
+        "resp" => OP_RESP,
+        "p1" => OP_P1,
+        "p2" => OP_P2,
+        "p3" => OP_P3,
+        _ => 0,
+    };
+    let how = how.to_string();
+    let wop = wop.to_string();
+    let other = OTHER.with(|o| o.borrow().clone()).unwrap_or_default();
+    let seen = Rc::new(RefCell::new(OtherRun::default()));
+    let seen2 = seen.clone();
+    let devm = dev.matter;
+    // per (opcode, counter): the rewritten datagrams (a retransmission gets the same treatment)
+    let mut cache: BTreeMap<(u16, u32), Vec<Vec<u8>>> = BTreeMap::new();
+    let mut wop_done = false;
+    let mitm: Mitm = Box::new(move |src, _dst, _idx, d| {
+        let m = match parse_msg(d) {
+            Some(m) => m,
+            None => return vec![d.to_vec()],
+        };
+        if let Some(c) = cache.get(&(src, m.ctr)) {
+            return c.clone();
+        }
+        // a window operation just before the `at`-th initiator message reaches the device
+        if src == A && !wop_done {
+            let k = match m.opcode {
+                OP_REQ => 0,
+                OP_P1 => 1,
+                OP_P3 => 2,
+                _ => 9,
+            };
+            if k == at {
+                wop_done = true;
+                let d2 = Device { matter: devm };
+                match wop.as_str() {
+                    "close" => {
+                        d2.close();
+                    }
+                    "expire" => d2.age(1_000_000),
+                    w if w.starts_with("reopen") => {
+                        d2.close();
+                        d2.open("b", w[6..].parse().unwrap_or(0), 78, 32, 2000, 900);
+                    }
+                    _ => {}
+                }
+            }
+        }
+        if let Some(ms) = tlv_parse(&m.payload) {
+            let mut s = seen2.borrow_mut();
+            match (m.opcode, ms.first()) {
+                (OP_P1, Some((_, Tv::Bytes(b)))) => s.pa = b.clone(),
+                (OP_P2, Some((_, Tv::Bytes(b)))) => s.pb = b.clone(),
+                (OP_P3, Some((_, Tv::Bytes(b)))) => s.ca = b.clone(),
+                _ => {}
+            }
+        }
+        let out = if m.opcode == target_op && m.proto == 0 {
+            match how.as_str() {
+                "drop" => vec![],
+                "dup" => vec![d.to_vec(), d.to_vec()],
+                h => match mutate_payload(m.opcode, &m.payload, h, &other) {
+                    Some(p) => {
+                        let mut nd = d[..m.off].to_vec();
+                        nd.extend_from_slice(&p);
+                        vec![nd]
+                    }
+                    None => vec![d.to_vec()],
+                },
+            }
+        } else {
+            vec![d.to_vec()]
+        };
+        if m.opcode == target_op {
+            // "drop" loses the first copy only
+            cache.insert((src, m.ctr), if how == "drop" { vec![d.to_vec()] } else { out.clone() });
+        }
+        out
+    });
+    let net = MNet::new(Some(mitm));
+    let (b_tx, b_rx) = net.attach(B);
+    let (a_tx, a_rx) = net.attach(A);
+    let sc = SecureChannel::new(&crypto, &());
+    let responder = Responder::new("b-sc", sc, dev.matter, 0);
+    let mut res = E2eOut::default();
+    e2e::block_on(async {
+        let nodes = select3(
+            dev.matter.run(&crypto, b_tx, b_rx, NoNetwork),
+            responder.run::<4>(),
+            matter_a.run(&crypto, a_tx, a_rx, NoNetwork),
+        )
+        .coalesce();
+        let flow = async {
+            let r: Result<(), Error> = async {
+                let ex = Exchange::initiate_plaintext(matter_a, &crypto, e2e::node_addr(B)).await?;
+                PaseInitiator::perform(ex, &crypto, passcode(pwa)).await
+            }
+            .await;
+            // let the device finish (its handler may still wait for an acknowledgement)
+            let mut waited = 0;
+            loop {
+                Timer::after(Duration::from_millis(10)).await;
+                waited += 10;
+                let o = dev.observe();
+                if (o.marker == "n" && waited >= 40) || waited > 4000 {
+                    break;
+                }
+            }
+            r
+        };
+        match select3(core::pin::pin!(nodes), core::pin::pin!(flow), core::pin::pin!(Timer::after(Duration::from_secs(30)))).await {
+            embassy_futures::select::Either3::First(_) => res.a_res = "transport-exit".into(),
+            embassy_futures::select::Either3::Second(r) => {
+                res.a_ok = r.is_ok();
+                res.a_res = match r {
+                    Ok(()) => "ok".into(),
+                    Err(_) => "fail".into(),
+                };
+            }
+            embassy_futures::select::Either3::Third(_) => {
+                res.hang = true;
+                res.a_res = "hang".into();
+            }
+        }
+    });
+    // the initiator's own PASE session
+    let a_sess = matter_a.with_state(|st| {
+        st.verif_sessions().iter().map(|s| s.verif_snapshot()).filter(|s| matches!(s.mode, SessionMode::Pase { .. }) && !s.reserved).count()
+    });
+    if res.a_ok != (a_sess > 0) {
+        res.a_res = format!("{}-but-{}-sessions", res.a_res, a_sess);
+    }
+    res.obs = Some(dev.observe());
+    res.seen = seen.borrow().clone();
+    res
+}
+
+fn run_e(f: &[&str]) -> String {
+    let pwb: u64 = field(f, "pwb").parse().unwrap_or(1);
+    let pwa: u64 = field(f, "pwa").parse().unwrap_or(1);
+    let (msg, how) = field(f, "mitm").split_once(':').unwrap_or(("none", ""));
+    let at: u64 = field(f, "at").parse().unwrap_or(3);
+    let wop = field(f, "wop");
+    if how.starts_with("other") && OTHER.with(|o| o.borrow().is_none()) {
+        // a plain run first: its values are substituted into this one
+        let r = run_e2e(pwb, pwb, "none", "", 3, "none");
+        OTHER.with(|o| *o.borrow_mut() = Some(r.seen));
+    }
+    let r = run_e2e(pwb, pwa, msg, how, at, wop);
+    let mut o = r.obs.unwrap();
+    // the initiator's session id is allocated by its own Matter: canonicalise
+    for s in o.sessions.iter_mut() {
+        s.0 = 2001;
+    }
+    if o.marker != "n" {
+        o.marker = format!("1{}", if o.marker.ends_with('x') { "x" } else { "" });
+    }
+    format!("a={} {}", r.a_res, fmt_obs(&o))
+}
+
+// ------------------------------------------------------------------ K: the spake2p primitive
+
+fn run_k(class: &str) -> String {
+    let crypto = test_only_crypto();
+    let pwb = passcode(1).to_le_bytes();
+    let salt = salt_bytes(1, 32);
+    let mut own = EC_POINT_ZEROED;
+    let mut other = EC_POINT_ZEROED;
+    let mut sp = Spake2P::new();
+    let _ = sp.setup_prover(&crypto, Spake2pVerifierPasswordRef::new(&pwb), &salt, 1000, &mut own).unwrap();
+    let _ = sp.setup_prover(&crypto, Spake2pVerifierPasswordRef::new(&pwb), &salt, 1000, &mut other).unwrap();
+    let v = point_variant(own.access(), other.access(), class);
+    let a_pt: Result<CanonEcPointRef<'_>, _> = v.as_slice().try_into();
+    let a_pt = match a_pt {
+        Ok(p) => p,
+        Err(_) => return "rej".into(),
+    };
+    let mut vstr = Spake2pVerifierStr::new();
+    Spake2P::verif_compute_verifier(&crypto, Spake2pVerifierPasswordRef::new(&pwb), 1000, &salt, &mut vstr).unwrap();
+    let mut data = Spake2pVerifierData {
+        password: None,
+        verifier: vstr,
+        salt: rs_matter::sc::pase::verif_spake2p::Spake2pVerifierSalt::new(),
+        salt_len: 32,
+        count: 1000,
+    };
+    data.salt.access_mut().copy_from_slice(&salt);
+    let mut verifier = Spake2P::new();
+    let mut b_pt = EC_POINT_ZEROED;
+    let mut cb = HMAC_HASH_ZEROED;
+    match rsm_harness::catch(std::panic::AssertUnwindSafe(|| verifier.setup_verifier(&crypto, &data, a_pt, &mut b_pt, &mut cb))) {
+        Ok(Ok(())) => "ok".into(),
+        Ok(Err(_)) => "rej".into(),
+        Err(_) => "panic".into(),
+    }
+}
+
 fn run_line(line: &str, out: &mut String) {
     let f: Vec<&str> = line.splitn(3, ' ').collect();
     match f[0] {
         "S" => writeln!(out, "S {} {}", f[1], run_s(f.get(2).copied().unwrap_or(""))).unwrap(),
+        "E" => {
+            let kv: Vec<&str> = f.get(2).copied().unwrap_or("").split(' ').collect();
+            writeln!(out, "E {} {}", f[1], run_e(&kv)).unwrap()
+        }
+        "K" => writeln!(out, "K {} {}", f[1], run_k(f.get(2).copied().unwrap_or(""))).unwrap(),
         _ => {}
     }
+}
+
+// ------------------------------------------------------------------ generation
+
+const REQ_VARIANTS: &[&str] = &[
+    "ok", "sp", "extra", "duprand", "hasp", "pid1", "rand16", "rand33", "norand", "nossid", "nopid", "nohasp", "empty", "junk", "noend", "trunc1",
+    "trunc3", "trunc35", "trunc36", "trunc39", "trunc42",
+];
+const PT_VARIANTS: &[&str] = &[
+    "own", "other", "ident0", "ident4", "offc", "offx", "xrange", "fmt", "short", "long", "empty", "notlv", "nofield", "wrongtag", "wrongop",
+];
+const CA_VARIANTS: &[&str] = &["own", "zero", "flip0", "flip255", "replay", "short", "long", "empty", "notlv", "nofield", "wrongtag", "wrongop"];
+const K_CLASSES: &[&str] = &["own", "other", "ident0", "ident4", "offc", "offx", "xrange", "fmt", "short", "long", "empty"];
+
+struct Gen {
+    cases: Vec<String>,
+    id: u64,
+    streams: BTreeMap<String, u64>,
+}
+
+impl Gen {
+    fn s(&mut self, stream: &str, ops: &[String]) {
+        self.id += 1;
+        *self.streams.entry(stream.to_string()).or_insert(0) += 1;
+        self.cases.push(format!("S {} {}", self.id, ops.join(";")));
+    }
+    fn raw(&mut self, stream: &str, kind: &str, rest: String) {
+        self.id += 1;
+        *self.streams.entry(stream.to_string()).or_insert(0) += 1;
+        self.cases.push(format!("{} {} {}", kind, self.id, rest));
+    }
+}
+
+fn sv(v: &[&str]) -> Vec<String> {
+    v.iter().map(|x| x.to_string()).collect()
+}
+
+fn generate(tier: &str, seed: u64) -> (Vec<String>, BTreeMap<String, u64>) {
+    let thorough = tier == "thorough";
+    let mut rng = Rng::new(seed);
+    let mut g = Gen { cases: Vec::new(), id: 0, streams: BTreeMap::new() };
+    let open_b = "open:b:1:1:32:2000:300".to_string();
+    let hs = |e: u64, pw: u64| -> Vec<String> {
+        vec![format!("req:{}:ok:s", e), format!("p1:{}:{}:own:s", e, pw), format!("p3:{}:own:s", e), format!("ack:{}", e)]
+    };
+
+    // --- branch stream: passcodes, salt and iteration bounds, window kinds
+    for (kind, saltlen, iters) in [("b", 16u64, 2000u64), ("b", 32, 2000), ("b", 24, 2000), ("e", 16, 1000), ("e", 32, 1000), ("e", 17, 1001)] {
+        for (pwb, pwa) in [(1u64, 1u64), (1, 2), (3, 3), (2, 1)] {
+            let mut ops = vec![format!("open:{}:{}:{}:{}:{}:{}", kind, pwb, 1 + rng.below(5), saltlen, iters, 180 + rng.below(720))];
+            ops.extend(hs(1, pwa));
+            ops.push("req:2:ok:s".into());
+            g.s("passcodes-salt-iterations", &ops);
+        }
+    }
+    g.s("passcodes-salt-iterations", &[vec!["open:e:1:1:32:100000:300".to_string()], hs(1, 1)].concat());
+    // open: argument checks
+    g.s(
+        "window-api",
+        &sv(&[
+            "req:1:ok:s", "close", "poll", "open:e:3:2:15:1000:180", "open:e:3:2:33:1000:180", "open:b:3:2:15:2000:180", "open:e:3:2:16:1000:179",
+            "open:b:3:2:16:1000:901", "open:e:3:2:16:1000:900", "open:b:1:1:32:2000:300", "req:1:ok:s", "p1:1:3:own:s", "p3:1:own:s", "ack:1", "poll",
+            "adv:899000", "poll", "adv:2000", "poll", "poll", "open:b:1:1:32:2000:180", "adv:180000", "poll", "adv:1", "req:2:ok:s",
+        ]),
+    );
+    // every request / Pake1 / Pake3 variant, followed by the rest of an otherwise honest handshake
+    for v in REQ_VARIANTS {
+        for hv in ["s", "a"] {
+            g.s(
+                "request-variants",
+                &[vec![open_b.clone(), format!("req:1:{}:{}", v, hv)], sv(&["p1:1:1:own:s", "p3:1:own:s", "ack:1", "req:2:ok:s"])].concat(),
+            );
+        }
+    }
+    for v in PT_VARIANTS {
+        g.s("pake1-variants", &[vec![open_b.clone(), "req:1:ok:s".into(), format!("p1:1:1:{}:s", v)], sv(&["p3:1:own:s", "ack:1", "req:2:ok:s"])].concat());
+    }
+    for v in CA_VARIANTS {
+        g.s("pake3-variants", &[vec![open_b.clone()], sv(&["req:1:ok:s", "p1:1:1:own:s"]), vec![format!("p3:1:{}:s", v)], sv(&["ack:1", "req:2:ok:s"])].concat());
+    }
+    for rv in ["salt", "iter", "hash"] {
+        g.s("views", &[vec![open_b.clone()], sv(&["req:1:ok:s"]), vec![format!("p1:1:1:own:{}", rv)], sv(&["p3:1:own:s", "ack:1"])].concat());
+    }
+    g.s("views", &[vec![open_b.clone()], sv(&["req:1:ok:s", "p1:1:1:own:s", "p3:1:own:a", "ack:1"])].concat());
+    // a replayed confirmation of an earlier successful run
+    g.s("replay", &[vec![open_b.clone()], hs(1, 1), sv(&["req:2:ok:s", "p1:2:1:own:s", "p3:2:replay:s", "ack:2", "req:3:ok:s", "p1:3:1:own:s", "p3:3:own:s", "ack:3"])].concat());
+    // the initiator aborts with a StatusReport at every stage
+    g.s(
+        "status-abort",
+        &[vec![open_b.clone()], sv(&["req:1:ok:s", "st:1", "req:2:ok:s", "p1:2:1:own:s", "st:2", "req:3:ok:s", "p1:3:1:own:s", "p3:3:zero:s", "st:3", "req:4:ok:s", "p1:4:1:own:s", "p3:4:own:s", "st:4"])].concat(),
+    );
+    // the initiator goes silent at every stage (the device's retransmissions run out)
+    for k in 0..4 {
+        let mut ops = vec![open_b.clone(), "req:1:spf:s".to_string()];
+        if k >= 1 {
+            ops.push("p1:1:1:own:s".into());
+        }
+        if k == 2 {
+            ops.push("p3:1:zero:s".into());
+        }
+        if k == 3 {
+            ops.push("p3:1:own:s".into());
+        }
+        ops.push("abort:1".into());
+        ops.push("req:2:ok:s".into());
+        g.s("silent-abort", &ops);
+    }
+    // 21 failing attempts in a row (wrong passcode), then an honest one
+    {
+        let mut ops = vec![open_b.clone()];
+        for k in 1..=21 {
+            ops.extend(hs(k, 2));
+        }
+        ops.extend(hs(22, 1));
+        g.s("twenty-failures", &ops);
+        // mixed kinds of failure
+        let mut ops = vec![open_b.clone()];
+        for k in 1..=21u64 {
+            match k % 4 {
+                0 => ops.extend(sv(&[&format!("req:{}:ok:s", k), &format!("p1:{}:1:offc:s", k)])),
+                1 => ops.extend(sv(&[&format!("req:{}:ok:s", k), &format!("st:{}", k)])),
+                2 => ops.extend(sv(&[&format!("req:{}:pid1:s", k)])),
+                _ => ops.extend(sv(&[&format!("req:{}:ok:s", k), &format!("p1:{}:1:own:s", k), &format!("p3:{}:zero:s", k), &format!("ack:{}", k)])),
+            }
+        }
+        g.s("twenty-failures", &ops);
+        // a success in between does not reset and is not counted
+        let mut ops = vec![open_b.clone()];
+        for k in 1..=10 {
+            ops.extend(hs(k, 2));
+        }
+        ops.extend(hs(11, 1));
+        for k in 12..=22 {
+            ops.extend(hs(k, 2));
+        }
+        g.s("twenty-failures", &ops);
+    }
+    // window operations between the messages
+    let wops: Vec<Vec<String>> = vec![
+        sv(&["close"]),
+        sv(&["poll"]),
+        sv(&["close", "open:b:1:1:32:2000:300"]),
+        sv(&["close", "open:b:2:2:16:2000:300"]),
+        sv(&["close", "open:e:1:1:32:1000:300"]),
+        sv(&["adv:6000"]),            // the window (opened 175 s ago for 180 s) expires, the marker is live
+        sv(&["adv:6000", "poll"]),
+        sv(&["adv:61000"]),           // the marker's deadline passes too
+        sv(&["adv:3000"]),            // nothing expires
+        sv(&["open:b:2:2:16:2000:300"]), // Busy: a window is open
+    ];
+    for w in &wops {
+        for pos in 0..5 {
+            let base = sv(&["req:1:ok:s", "p1:1:1:own:s", "p3:1:own:s", "ack:1"]);
+            let mut ops = vec!["open:b:1:1:32:2000:180".to_string(), "adv:175000".to_string()];
+            for (i, b) in base.iter().enumerate() {
+                if i == pos {
+                    ops.extend(w.clone());
+                }
+                ops.push(b.clone());
+            }
+            if pos == 4 {
+                ops.extend(w.clone());
+            }
+            ops.push("req:2:ok:s".into());
+            ops.push("p1:2:1:own:s".into());
+            g.s("window-ops-between-messages", &ops);
+        }
+    }
+    // a second initiator at every step (and its own further messages)
+    for pos in 0..5 {
+        for second in [sv(&["req:2:ok:s"]), sv(&["req:2:ok:s", "p1:2:1:own:s", "p3:2:own:s"]), sv(&["req:2:junk:s"]), sv(&["p1:2:1:own:s"]), sv(&["st:2"])] {
+            let base = sv(&["req:1:ok:s", "p1:1:1:own:s", "p3:1:own:s", "ack:1"]);
+            let mut ops = vec![open_b.clone()];
+            for (i, b) in base.iter().enumerate() {
+                if i == pos {
+                    ops.extend(second.clone());
+                }
+                ops.push(b.clone());
+            }
+            if pos == 4 {
+                ops.extend(second.clone());
+            }
+            g.s("second-initiator", &ops);
+        }
+    }
+    // marker expiry and take-over
+    g.s("marker", &[vec![open_b.clone()], sv(&["req:1:ok:s", "adv:61000", "req:2:ok:s", "p1:1:1:own:s", "p1:2:1:own:s", "p3:2:own:s", "ack:2"])].concat());
+    g.s("marker", &[vec![open_b.clone()], sv(&["req:1:ok:s", "p1:1:1:own:s", "adv:61000", "p3:1:own:s", "req:2:ok:s"])].concat());
+    g.s("marker", &[vec![open_b.clone()], sv(&["req:1:ok:s", "adv:59000", "p1:1:1:own:s", "adv:59000", "p3:1:own:s", "ack:1"])].concat());
+    g.s("marker", &[vec![open_b.clone()], sv(&["req:1:ok:s", "p1:1:1:own:s", "adv:61000", "req:2:ok:s", "p3:1:own:s", "p1:2:1:own:s", "p3:2:own:s", "ack:2"])].concat());
+    g.s("marker", &[vec![open_b.clone()], sv(&["req:1:ok:s", "req:1:ok:s", "ack:1", "p1:1:1:own:s"])].concat());
+    g.s("marker", &[vec![open_b.clone()], sv(&["p1:1:1:own:s", "p3:1:own:s", "ack:1", "st:1", "req:1:ok:s", "ack:1", "ack:1", "p1:1:1:own:s", "ack:1", "p3:1:own:s", "ack:1"])].concat());
+    g.s("marker", &[vec![open_b.clone()], sv(&["req:1:ok:s", "p1:1:1:own:s", "p3:1:zero:s", "close", "ack:1"])].concat());
+    g.s("marker", &[vec![open_b.clone()], sv(&["req:1:ok:s", "p1:1:1:own:s", "p3:1:own:s", "close", "ack:1", "open:b:1:1:32:2000:300", "req:2:ok:s"])].concat());
+
+    // --- single-bit sweeps
+    let ca_bits: Vec<u64> = if thorough { (0..256).collect() } else { (0..32).map(|_| rng.below(256)).collect() };
+    for b in ca_bits {
+        g.s("confirmation-bit-flips", &[vec![open_b.clone()], sv(&["req:1:ok:s", "p1:1:1:own:s"]), vec![format!("p3:1:flip{}:s", b)], sv(&["ack:1"])].concat());
+    }
+    let pa_bits: Vec<u64> = if thorough { (0..520).collect() } else { (0..32).map(|_| rng.below(520)).collect() };
+    for b in pa_bits {
+        g.s("share-bit-flips", &[vec![open_b.clone()], sv(&["req:1:ok:s"]), vec![format!("p1:1:1:flip{}:s", b)], sv(&["p3:1:own:s", "ack:1"])].concat());
+    }
+    // request bits: the class (accepted / refused) is not known by construction -> only the final state is compared
+    let rq_bits: Vec<u64> = if thorough { (0..(45 * 8)).collect() } else { (0..40).map(|_| rng.below(45 * 8)).collect() };
+    for b in rq_bits {
+        g.s("request-bit-flips-weak", &[vec![open_b.clone()], vec![format!("req:1:flip{}:a", b)], sv(&["p1:1:1:own:s", "p3:1:own:s", "ack:1", "ack:1"])].concat());
+    }
+
+    // --- random sequences over up to three concurrent labels
+    let n_random = if thorough { 2500 } else { 170 };
+    for _ in 0..n_random {
+        let mut ops: Vec<String> = Vec::new();
+        let pwb = rng.range(1, 2);
+        if rng.chance(9, 10) {
+            ops.push(format!("open:{}:{}:{}:{}:{}:{}", if rng.chance(1, 2) { "b" } else { "e" }, pwb, rng.range(1, 3), rng.range(16, 32), 1000, 180 + rng.below(3) * 100));
+        }
+        // stage per label: 0 none, 1 after req, 2 after p1, 3 after p3
+        let mut stage = [0u8; 4];
+        let len = rng.range(4, 16);
+        for _ in 0..len {
+            let e = rng.range(1, 3) as usize;
+            let roll = rng.below(100);
+            if roll < 8 {
+                ops.push((*rng.pick(&["close", "poll", "adv:3000", "adv:30000", "adv:61000", "adv:200000"])).to_string());
+            } else if roll < 12 {
+                ops.push(format!("open:b:{}:{}:{}:2000:{}", rng.range(1, 2), rng.range(1, 3), rng.range(16, 32), 180 + rng.below(3) * 100));
+            } else if roll < 80 {
+                // the next step of label e, mostly well-formed
+                match stage[e] {
+                    0 => {
+                        let v = if rng.chance(4, 5) { "ok" } else { *rng.pick(REQ_VARIANTS) };
+                        ops.push(format!("req:{}:{}:{}", e, v, if rng.chance(9, 10) { "s" } else { "a" }));
+                        stage[e] = 1;
+                    }
+                    1 => {
+                        let v = if rng.chance(3, 4) { "own" } else { *rng.pick(PT_VARIANTS) };
+                        let pw = if rng.chance(2, 3) { pwb } else { rng.range(1, 2) };
+                        ops.push(format!("p1:{}:{}:{}:{}", e, pw, v, if rng.chance(9, 10) { "s" } else { *rng.pick(&["salt", "iter", "hash"]) }));
+                        stage[e] = 2;
+                    }
+                    2 => {
+                        let v = if rng.chance(3, 4) { "own" } else { *rng.pick(CA_VARIANTS) };
+                        ops.push(format!("p3:{}:{}:{}", e, v, if rng.chance(9, 10) { "s" } else { "a" }));
+                        stage[e] = 3;
+                    }
+                    _ => {
+                        ops.push(format!("ack:{}", e));
+                        stage[e] = 0;
+                    }
+                }
+            } else if roll < 90 {
+                // out of order
+                let k = rng.below(5);
+                ops.push(match k {
+                    0 => format!("req:{}:ok:s", e),
+                    1 => format!("p1:{}:{}:own:s", e, pwb),
+                    2 => format!("p3:{}:own:s", e),
+                    3 => format!("ack:{}", e),
+                    _ => format!("st:{}", e),
+                });
+                if k == 4 || stage[e] == 3 {
+                    stage[e] = 0;
+                }
+            } else {
+                ops.push(format!("ack:{}", e));
+                if stage[e] == 3 {
+                    stage[e] = 0;
+                }
+            }
+        }
+        // never leave a handler waiting for an acknowledgement mid-sequence unobserved: finish with acks
+        for e in 1..=3 {
+            ops.push(format!("ack:{}", e));
+        }
+        g.s("random", &ops);
+    }
+
+    // --- two real nodes, man in the middle
+    let mut e = |g: &mut Gen, stream: &str, pwb: u64, pwa: u64, mitm: &str, class: &str, at: u64, wop: &str| {
+        g.raw(stream, "E", format!("pwb={} pwa={} mitm={} class={} at={} wop={}", pwb, pwa, mitm, class, at, wop));
+    };
+    for (pwb, pwa) in [(1u64, 1u64), (1, 2), (2, 2), (2, 1)] {
+        e(&mut g, "e2e-passcodes", pwb, pwa, "none:", "none", 3, "none");
+    }
+    for msg in ["req", "resp", "p1", "p2", "p3"] {
+        e(&mut g, "e2e-loss-duplication", 1, 1, &format!("{}:drop", msg), "none", 3, "none");
+        e(&mut g, "e2e-loss-duplication", 1, 1, &format!("{}:dup", msg), "none", 3, "none");
+    }
+    // field mutations: (message, how, class)
+    let mut muts: Vec<(&str, String, &str)> = Vec::new();
+    for (n, c) in [(0, "req-altered"), (1, "req-altered"), (2, "req-broken"), (3, "req-altered")] {
+        muts.push(("req", format!("set:{}", n), c));
+    }
+    for n in 0..4 {
+        muts.push(("req", format!("del:{}", n), "req-broken"));
+        muts.push(("req", format!("dupf:{}", n), "req-altered"));
+    }
+    muts.push(("req", "zero:0".into(), "req-altered"));
+    for n in [1usize, 3, 35, 39, 42] {
+        muts.push(("req", format!("trunc:{}", n), "req-broken"));
+    }
+    for n in 0..5 {
+        muts.push(("resp", format!("set:{}", n), "resp-altered"));
+        muts.push(("resp", format!("del:{}", n), "resp-altered"));
+        muts.push(("resp", format!("zero:{}", n), "resp-altered"));
+    }
+    muts.push(("resp", "salt".into(), "resp-altered"));
+    muts.push(("resp", "dupf:1".into(), "resp-altered"));
+    for n in [1usize, 36, 70, 75] {
+        muts.push(("resp", format!("trunc:{}", n), "resp-altered"));
+    }
+    muts.push(("p1", "zero:0".into(), "p1-invalid"));
+    muts.push(("p1", "del:0".into(), "p1-invalid"));
+    muts.push(("p1", "set:0".into(), "p1-invalid"));
+    muts.push(("p1", "dupf:0".into(), "p1-swapped"));
+    muts.push(("p1", "other".into(), "p1-swapped"));
+    for n in [1usize, 4, 68] {
+        muts.push(("p1", format!("trunc:{}", n), "p1-invalid"));
+    }
+    for n in 0..2 {
+        muts.push(("p2", format!("zero:{}", n), "p2-altered"));
+        muts.push(("p2", format!("del:{}", n), "p2-altered"));
+        muts.push(("p2", format!("set:{}", n), "p2-altered"));
+    }
+    muts.push(("p2", "other".into(), "p2-altered"));
+    muts.push(("p2", "trunc:70".into(), "p2-altered"));
+    muts.push(("p3", "zero:0".into(), "p3-altered"));
+    muts.push(("p3", "set:0".into(), "p3-altered"));
+    muts.push(("p3", "other".into(), "p3-altered"));
+    muts.push(("p3", "del:0".into(), "p3-broken"));
+    muts.push(("p3", "trunc:20".into(), "p3-broken"));
+    muts.push(("p3", "trunc:3".into(), "p3-broken"));
+    // single bits
+    let nbits = if thorough { 24 } else { 3 };
+    for (msg, len, class) in [("req", 45usize, "req-altered"), ("resp", 120, "resp-altered"), ("p1", 69, "p1-invalid"), ("p2", 104, "p2-altered"), ("p3", 37, "p3-altered")] {
+        for _ in 0..nbits {
+            // not the last byte (end of container): the reader tolerates its absence
+            muts.push((msg, format!("flip:{}", rng.below((len as u64 - 1) * 8)), class));
+        }
+    }
+    let keep = if thorough { muts.len() } else { 40 };
+    let mut picked: Vec<usize> = (0..muts.len()).collect();
+    // quick: a deterministic sample that always contains one mutation of each message
+    if !thorough {
+        let mut sel: Vec<usize> = Vec::new();
+        for msg in ["req", "resp", "p1", "p2", "p3"] {
+            let idx: Vec<usize> = picked.iter().copied().filter(|i| muts[*i].0 == msg).collect();
+            for _ in 0..(keep / 5) {
+                let c = idx[rng.below(idx.len() as u64) as usize];
+                if !sel.contains(&c) {
+                    sel.push(c);
+                }
+            }
+        }
+        picked = sel;
+    }
+    for i in picked {
+        let (msg, how, class) = &muts[i];
+        e(&mut g, "e2e-mutations", 1, 1, &format!("{}:{}", msg, how), class, 3, "none");
+    }
+    for at in 0..3 {
+        for wop in ["close", "expire", "reopen1", "reopen2"] {
+            e(&mut g, "e2e-window-ops", 1, 1, "none:", "none", at, wop);
+        }
+    }
+    e(&mut g, "e2e-window-ops", 1, 2, "none:", "none", 1, "reopen2");
+
+    // --- the primitive
+    for c in K_CLASSES {
+        g.raw("spake2p-primitive", "K", c.to_string());
+    }
+    (g.cases, g.streams)
 }
 
 fn main() {
     let args: Vec<String> = std::env::args().collect();
     match args.get(1).map(|s| s.as_str()) {
+        Some("gen") => {
+            let outdir = std::path::PathBuf::from(&args[4]);
+            std::fs::create_dir_all(&outdir).unwrap();
+            let (cases, streams) = generate(&args[2], args[3].parse().unwrap());
+            let mut cf = std::io::BufWriter::new(std::fs::File::create(outdir.join("cases.txt")).unwrap());
+            for c in &cases {
+                writeln!(cf, "{}", c).unwrap();
+            }
+            let mut sf = std::fs::File::create(outdir.join("stats.json")).unwrap();
+            let body: Vec<String> = streams.iter().map(|(k, v)| format!("\"{}\": {}", k, v)).collect();
+            writeln!(sf, "{{\"cases\": {}, \"streams\": {{{}}}}}", cases.len(), body.join(", ")).unwrap();
+        }
         Some("run") => {
             rsm_harness::silence_panics();
             let text = std::fs::read_to_string(&args[2]).unwrap();
